@@ -43,8 +43,8 @@ Decided (DESIGN.md section 5, C09):
                                      try whose catch (...) forwards current_exception() to the queue
     T2-every-chunk-forwarded         ... every chunk read is pushed to the queue unless at_end_of_data(chunk) held
 
-Findings on the pristine tree (genuine, see KNOWN): X1/X2/N1 for both buffer decompressors (F5b) and N1 for Bzip2Decompressor on the
-path that has just reopened the handle for the next stream (F11).  F5a (X2 for Bzip2Decompressor) is fixed in the repository.
+Findings: none on today's tree.  The rules found F5a (X2), F5b (X1 / X2 / N1) and F11 (N1); all three are fixed in the repository
+and their reverted fixes are mutants.
 
 Normal form.  The path rules (S1, N1, X1-X4, K1, K2, T1, T2) do not look at read() / close() / run_in_thread as written but at
 c09_util.normalized(): helpers of the same class called on `this` and free io-layer helpers that contain one of the library calls
@@ -80,32 +80,9 @@ NS = 'osmium::io::'
 # genuine findings on the pristine tree: (rule, key, explanation).  Reported with R.bad; the coordinator decides between a
 # repository fix and a known_findings.txt line.
 KNOWN = [
-    # F5a (X2, Bzip2Decompressor::read#end-declared@stream-end+feof) was fixed in /repo 6479008; the reverted fix is mutant revert-fix-F5a
-    ('X1-stream-end-continues', NS + 'GzipBufferDecompressor::read#inflate:next-stream-started',
-     'F5b. After Z_STREAM_END nothing re-initialises the z_stream; read() clears m_buffer whatever avail_in says: the second of two '
-     'concatenated gzip members in a memory buffer is ignored (1 node instead of 2).'),
-    ('X2-end-only-when-input-consumed', NS + 'GzipBufferDecompressor::read#end-declared@stream-end',
-     'F5b (same defect, second half): m_buffer = nullptr on Z_STREAM_END without a test of m_zstream.avail_in.'),
-    ('X1-stream-end-continues', NS + 'Bzip2BufferDecompressor::read#BZ2_bzDecompress:next-stream-started',
-     'F5b. After BZ_STREAM_END nothing calls BZ2_bzDecompressInit again: the second concatenated bzip2 stream in a memory buffer is '
-     'ignored (1 node instead of 2).'),
-    ('X2-end-only-when-input-consumed', NS + 'Bzip2BufferDecompressor::read#end-declared@stream-end',
-     'F5b (same defect, second half): m_buffer = nullptr on BZ_STREAM_END without a test of m_bzstream.avail_in.'),
-    ('N1-no-empty-chunk-while-more', NS + 'GzipBufferDecompressor::read#inflate:Z_OK',
-     'F5b. inflate() returning Z_OK with zero bytes produced (it consumed header bytes only / the input ended inside the header) makes '
-     'read() return an empty string, which the read thread takes as end of data: a gzip buffer cut after 5 bytes is accepted as an '
-     'empty file instead of raising gzip_error.'),
-    ('N1-no-empty-chunk-while-more', NS + 'Bzip2BufferDecompressor::read#BZ2_bzDecompress:BZ_OK',
-     'F5b. BZ2_bzDecompress returns BZ_OK with zero output when the input has run dry (libbz2 has no BUF_ERROR); read() returns an empty '
-     'string = end of data: a bzip2 buffer cut after 3 or 20 bytes (or anywhere) is accepted as an empty / shorter file.'),
-    ('N1-no-empty-chunk-while-more', NS + 'Bzip2Decompressor::read#BZ2_bzRead:after-next-stream-started',
-     'NEW (predicted from libbz2\'s BZ2_bzRead contract, not replayed by this agent: static analysis only). On BZ_STREAM_END the return '
-     'value of BZ2_bzRead is the number of bytes produced by this call, which is 0 when the stream ended exactly where the previous '
-     'call stopped or when the stream is empty. read() then reopens the handle on the unused bytes and returns buffer.resize(0): an '
-     'empty chunk although more input follows; ReadThreadManager breaks out of its loop and everything after is silently lost. '
-     'Concrete input: `bzip2 -c /dev/null` (14-byte empty stream) followed by a bzip2 stream larger than ~10 kB (so that feof() is '
-     'still false): 0 objects delivered, no error. Also a first stream whose decompressed size is a multiple of 1 MiB when its '
-     'end-of-stream trailer falls into the next 5000-byte libbz2 input block.'),
+    # none today.  History: F5a (X2, Bzip2Decompressor: feof taken for end of input) fixed in /repo 6479008; F11 (N1, Bzip2Decompressor:
+    # empty chunk after the reopen) fixed in 393c506; F5b (X1 / X2 / N1, both buffer decompressors: single stream only, truncated input
+    # accepted) fixed in f507134.  The reverted fixes are mutants (selftest/mutants/fixes.py and the F11 / F5b block of mutants/c09.py).
 ]
 
 EXPLANATION = (
